@@ -586,6 +586,15 @@ fn slave_phases(rep: &mut Report, seed: u64) {
         if let RecEvent::Measurement { m, .. } = ev {
             if let Some(rd) = m.raw_delay_offset {
                 rep.ev("delay_measurement");
+                // no Sync exchange has completed in this slave phase: there is nothing to pair the
+                // delay exchange with, the mean path delay is still unknown
+                if let Some(d) = m.delay {
+                    rep.violation(
+                        "C09|slave-phases|delay-from-sync-of-earlier-phase",
+                        &format!("second slave phase: the first Delay exchange completed before any Sync of this phase, but the measurement carries delay {} units (built with the raw sync offset of the earlier phase)", dur_units(d)),
+                        replay.clone(),
+                    );
+                }
                 if dur_units(rd) != want {
                     rep.violation(
                         "C09|slave-phases|delay-offset-not-one-exchange",
